@@ -44,7 +44,57 @@ def gen_cases(seed, tier):
             dom["info"] = dict(dom["info"], scale=S)
         cases.append({"spec": dom["spec"], "rows": dom["rows"], "info": dom["info"], "k": dom["k"],
                       "seed": int(rng.integers(0, 2 ** 31))})
+    # integer typed parameter rows (torch.tensor([[1], [2]]) as the library's own tests write them) with shapes whose
+    # position is the parameter itself: the box keeps non-integer bounds
+    rng2 = np.random.default_rng([seed, 18, 1])
+    for i in range(12 if tier == "quick" else 300):
+        cases.append({"intparams": ["circle", "sphere", "interval", "parallelogram"][i % 4], "rad": float(np.round(rng2.uniform(0.3, 1.7), 2)),
+                      "ts": [int(v) for v in rng2.permutation(np.arange(0, 6))[:int(rng2.integers(1, 4))]], "seed": int(rng2.integers(0, 2 ** 31)),
+                      "info": {"kind": "prim", "desc": "int"}, "k": 1})
     return cases
+
+
+def run_intparams(case):
+    import torch
+    import torchphysics as tp
+    kind, r, ts = case["intparams"], case["rad"], case["ts"]
+    res = {"cls": "intparams|%s|k%d" % (kind, min(len(ts), 2)), "judged": 0, "nontrivial": False, "viol": [], "counters": {}}
+    T = tp.spaces.R1("t")
+    P = tp.spaces.Points(torch.tensor([[v] for v in ts]), T)              # int64 rows
+    mech = {"root": "prim", "dep": True, "k": "k1" if len(ts) == 1 else "k+", "consumer": "bounding_box", "dep_product": False,
+            "param_dtype": "int64"}
+    tt = np.asarray(ts, float)
+    if kind == "circle":
+        D = tp.domains.Circle(tp.spaces.R2("x"), lambda t: torch.column_stack((t, torch.zeros_like(t))), r)
+        want = [tt.min() - r, tt.max() + r, -r, r]
+    elif kind == "sphere":
+        D = tp.domains.Sphere(tp.spaces.R3("x"), lambda t: torch.column_stack((t, torch.zeros_like(t), torch.zeros_like(t))), r)
+        want = [tt.min() - r, tt.max() + r, -r, r, -r, r]
+    elif kind == "interval":
+        D = tp.domains.Interval(tp.spaces.R1("x"), lambda t: t - r, lambda t: t + r)
+        want = [tt.min() - r, tt.max() + r]
+    else:
+        D = tp.domains.Parallelogram(tp.spaces.R2("x"), lambda t: torch.column_stack((t - r, torch.zeros_like(t) - r)),
+                                     lambda t: torch.column_stack((t + r, torch.zeros_like(t) - r)),
+                                     lambda t: torch.column_stack((t - r, torch.zeros_like(t) + r)))
+        want = [tt.min() - r, tt.max() + r, -r, r]
+    try:
+        bb = D.bounding_box(P)
+    except Exception as e:
+        res["viol"].append(viol("exception", "bounding_box of a %s with int64 parameter rows %s raised %s in %s: %s" % (kind, ts, type(e).__name__,
+                                exc_site(e), str(e)[:200]), exc=type(e).__name__, site=exc_site(e), **mech))
+        return res
+    got = np.asarray(torch.as_tensor(bb).detach().double().numpy()).reshape(-1)
+    want = np.asarray(want, float)
+    res["judged"] += 1
+    res["counters"]["int_param_boxes"] = 1
+    res["nontrivial"] = True
+    lo_bad = (got[0::2] > want[0::2] + 1e-5).any() if got.shape == want.shape else True
+    hi_bad = (got[1::2] < want[1::2] - 1e-5).any() if got.shape == want.shape else True
+    if lo_bad or hi_bad:
+        res["viol"].append(viol("point_outside_box", "%s with radius / half width %.2f at the int64 parameter rows %s: box %s does not enclose %s"
+                                % (kind, r, ts, got.tolist(), want.tolist()), points="extremal", target="interior", excess=1.0, **mech))
+    return res
 
 
 def _kcls(k):
@@ -100,6 +150,8 @@ def check_box(bb, X, rows_idx, k, L, what, res, mech, info):
 def run_case(case):
     import torch
     import torchphysics as tp
+    if case.get("intparams"):
+        return run_intparams(case)
     info = case["info"]
     res = {"cls": "", "judged": 0, "nontrivial": False, "viol": [], "counters": {}}
     D, node, Pp, env = sampling.build_case(case)
